@@ -1,5 +1,2 @@
 package main
 
-func genEffects(pkgs []*pkgInfo) string {
-	return "(* GENERATED stub *)\n"
-}
